@@ -4,8 +4,10 @@ import OPM.Model.Reconnect
 namespace Driver.Reconnect
 open OPM OPM.Wire OPM.Reconnect
 
-/-- ops:  `cfg <plot 0/1> <recent 0/1>` → which repository variant the code is (measured by the harness); answers `cfg`
-          `register` | `disconnect` | `restart`
+/-- ops:  `cfg <plot 0/1> <recent 0/1> <persist 0/1> <interval>` → which variant the code is (measured by the harness) and
+                                     the engine's log interval in this case; answers `cfg`
+          `register` | `disconnect` | `restart` | `crash`
+          `noop`                   → a message of another engine: no effect on this one
           `start <run>` | `stop <run>`
           `tags <run|-> <t> <system state 0/1/2 | ->`
           `restartm`               → mutant restart that forgets to store the recent engine (self-test only)
@@ -40,10 +42,12 @@ def answer (st : St) (op : Op) : St × String :=
 
 def step (st : St) (line : String) : St × String :=
   match fields line with
-  | ["cfg", p, r] =>
-    match parseBool p, parseBool r with
-    | some p, some r => ({ st with cfg := ⟨p, r⟩ }, "cfg")
-    | _, _ => (st, "bad-op")
+  | ["cfg", p, r, e, i] =>
+    match parseBool p, parseBool r, parseBool e, i.toNat? with
+    | some p, some r, some e, some i => ({ st with cfg := ⟨p, r, e, i⟩ }, "cfg")
+    | _, _, _, _ => (st, "bad-op")
+  | ["crash"] => answer st .crash
+  | ["noop"] => (st, "ok " ++ render st.s)
   | ["register"] => answer st .register
   | ["disconnect"] => answer st .disconnect
   | ["restart"] => answer st .restart
